@@ -22,6 +22,9 @@ const (
 var (
 	AllowedAssets       = []string{"btc", "lbtc"}
 	ErrSwapDoesNotExist = errors.New("swap does not exist")
+	// ErrMalformedMessage is returned for payloads that decode to no message
+	// (e.g. JSON null) or carry no swap id.
+	ErrMalformedMessage = errors.New("malformed peerswap message")
 )
 
 type ErrMinimumSwapSize uint64
@@ -202,6 +205,9 @@ func (s *SwapService) OnMessageReceived(peerId string, msgTypeString string, pay
 		if err != nil {
 			return err
 		}
+		if msg == nil || msg.SwapId == nil {
+			return ErrMalformedMessage
+		}
 		s.logMsg(msg.SwapId.String(), peerId, msgTypeString, payload)
 		err = s.OnSwapOutRequestReceived(msg.SwapId, peerId, msg)
 		if err != nil {
@@ -212,6 +218,9 @@ func (s *SwapService) OnMessageReceived(peerId string, msgTypeString string, pay
 		err := json.Unmarshal(msgBytes, &msg)
 		if err != nil {
 			return err
+		}
+		if msg == nil || msg.SwapId == nil {
+			return ErrMalformedMessage
 		}
 		s.logMsg(msg.SwapId.String(), peerId, msgTypeString, payload)
 		// Check if sender is expected swap partner peer.
@@ -233,6 +242,9 @@ func (s *SwapService) OnMessageReceived(peerId string, msgTypeString string, pay
 		if err != nil {
 			return err
 		}
+		if msg == nil || msg.SwapId == nil {
+			return ErrMalformedMessage
+		}
 		s.logMsg(msg.SwapId.String(), peerId, msgTypeString, payload)
 		// Check if sender is expected swap partner peer.
 		ok, err := s.isMessageSenderExpectedPeer(peerId, msg.SwapId)
@@ -252,6 +264,9 @@ func (s *SwapService) OnMessageReceived(peerId string, msgTypeString string, pay
 		err := json.Unmarshal(msgBytes, &msg)
 		if err != nil {
 			return err
+		}
+		if msg == nil || msg.SwapId == nil {
+			return ErrMalformedMessage
 		}
 		s.logMsg(msg.SwapId.String(), peerId, msgTypeString, payload)
 		// Check if sender is expected swap partner peer.
@@ -273,6 +288,9 @@ func (s *SwapService) OnMessageReceived(peerId string, msgTypeString string, pay
 		if err != nil {
 			return err
 		}
+		if msg == nil || msg.SwapId == nil {
+			return ErrMalformedMessage
+		}
 		s.logMsg(msg.SwapId.String(), peerId, msgTypeString, payload)
 		err = s.OnSwapInRequestReceived(msg.SwapId, peerId, msg)
 		if err != nil {
@@ -283,6 +301,9 @@ func (s *SwapService) OnMessageReceived(peerId string, msgTypeString string, pay
 		err := json.Unmarshal(msgBytes, &msg)
 		if err != nil {
 			return err
+		}
+		if msg == nil || msg.SwapId == nil {
+			return ErrMalformedMessage
 		}
 		s.logMsg(msg.SwapId.String(), peerId, msgTypeString, payload)
 		// Check if sender is expected swap partner peer.
@@ -303,6 +324,9 @@ func (s *SwapService) OnMessageReceived(peerId string, msgTypeString string, pay
 		err := json.Unmarshal(msgBytes, &msg)
 		if err != nil {
 			return err
+		}
+		if msg == nil || msg.SwapId == nil {
+			return ErrMalformedMessage
 		}
 		s.logMsg(msg.SwapId.String(), peerId, msgTypeString, payload)
 		// Check if sender is expected swap partner peer.
